@@ -22,6 +22,18 @@ func marshalTokens(atl atlas.Atlas, v interface{}, budget int) (class string, to
 		}
 	}()
 	m := obj.NewMarshaller(atl)
+	// a long-lived instance: an earlier call that failed in the middle of a nested value must not matter
+	func() {
+		defer func() { recover() }()
+		if m.Bind(map[string]interface{}{"a": []interface{}{1, map[string]interface{}{"b": make(chan int)}}, "z": 1}) == nil {
+			var slot tok.Token
+			for i := 0; i < 20; i++ {
+				if done, err := m.Step(&slot); done || err != nil {
+					break
+				}
+			}
+		}
+	}()
 	if err := m.Bind(v); err != nil {
 		return "binderr", nil
 	}
@@ -115,6 +127,19 @@ func runObjUnmarshal(payload string) (res string) {
 		}
 	}()
 	u := obj.NewUnmarshaller(atl)
+	// a long-lived instance: an earlier call abandoned in the middle of a nested value must not matter
+	func() {
+		defer func() { recover() }()
+		var junk map[string][]map[string]int
+		if u.Bind(&junk) == nil {
+			pre, _ := parseTokens("{-1 s61 [-1 {-1 s62 i1 s63 bt")
+			for i := range pre {
+				if done, err := u.Step(&pre[i]); done || err != nil {
+					break
+				}
+			}
+		}
+	}()
 	if err := u.Bind(target.Interface()); err != nil {
 		return "binderr"
 	}
